@@ -57,3 +57,28 @@ func init() {
 			"\t\tdb.AddError(savePointer.SavePoint(db, name))\n\t\t// restore prepared statement\n\t\tif isPreparedStmtTx {\n\t\t\tdb.Statement.ConnPool = preparedStmtTx\n\t\t}", "\t\tdb.AddError(savePointer.SavePoint(db, name))\n\t\t// restore prepared statement\n\t\tif isPreparedStmtTx && db.Error != nil {\n\t\t\tdb.Statement.ConnPool = preparedStmtTx\n\t\t}"}}},
 	)
 }
+
+func init() {
+	addMutants(
+		// C15.limit-merge
+		Mutant{Name: "c15-negative-offset-deletes-the-clause", Property: "C15", Rule: "C15.limit-merge", Edits: []Edit{{"chainable_api.go",
+			"\ttx = db.getInstance()\n\ttx.Statement.AddClause(clause.Limit{Offset: offset})", "\ttx = db.getInstance()\n\tif offset < 0 {\n\t\tdelete(tx.Statement.Clauses, \"LIMIT\")\n\t\treturn\n\t}\n\ttx.Statement.AddClause(clause.Limit{Offset: offset})"}}},
+		Mutant{Name: "n119-limit-clause-in-a-local", Property: "*", Rule: "NEUTRAL", Edits: []Edit{{"chainable_api.go",
+			"\ttx.Statement.AddClause(clause.Limit{Limit: &limit})", "\tlimitClause := clause.Limit{Limit: &limit}\n\ttx.Statement.AddClause(limitClause)"}}},
+		// C16.block-keeps-chain / C04.block-keeps-chain
+		Mutant{Name: "c16-nested-block-always-starts-a-new-statement", Property: "C16", Rule: "C16.block-keeps-chain", Edits: []Edit{{"finisher_api.go",
+			"\t\terr = fc(db.Session(&Session{NewDB: db.clone == 1}))", "\t\terr = fc(db.Session(&Session{NewDB: true}))"}}},
+		Mutant{Name: "c04-begin-never-starts-a-new-statement", Property: "C04", Rule: "C04.block-keeps-chain", Edits: []Edit{{"finisher_api.go",
+			"\t\ttx  = db.getInstance().Session(&Session{Context: db.Statement.Context, NewDB: db.clone == 1})", "\t\ttx  = db.getInstance().Session(&Session{Context: db.Statement.Context, NewDB: db.clone > 1})"}}},
+		// C17.compile-purge
+		Mutant{Name: "c17-compile-keeps-the-unpurged-list", Property: "C17", Rule: "C17.compile-purge", Edits: []Edit{{"callbacks.go",
+			"\tif len(removedMap) > 0 {\n\t\tcallbacks = removeCallbacks(callbacks, removedMap)\n\t}\n\tp.callbacks = callbacks\n", "\tp.callbacks = callbacks\n\tif len(removedMap) > 0 {\n\t\tcallbacks = removeCallbacks(callbacks, removedMap)\n\t}\n"}}},
+		Mutant{Name: "n120-compile-purge-into-a-second-local", Property: "*", Rule: "NEUTRAL", Edits: []Edit{{"callbacks.go",
+			"\tif len(removedMap) > 0 {\n\t\tcallbacks = removeCallbacks(callbacks, removedMap)\n\t}\n\tp.callbacks = callbacks\n", "\tkept := callbacks\n\tif len(removedMap) > 0 {\n\t\tkept = removeCallbacks(callbacks, removedMap)\n\t}\n\tp.callbacks = kept\n"}}},
+		// C20.column-passthrough
+		Mutant{Name: "c20-column-type-trimmed-of-its-length", Property: "C20", Rule: "C20.column-passthrough", Edits: []Edit{{"migrator/column_type.go",
+			"\treturn ct.ColumnTypeValue.String, ct.ColumnTypeValue.Valid", "\treturn regexpLength.ReplaceAllString(ct.ColumnTypeValue.String, \"\"), ct.ColumnTypeValue.Valid"},
+			{"migrator/column_type.go", "// ColumnType column type implements ColumnType interface\n", "var regexpLength = regexp.MustCompile(`\\(\\d+\\)`)\n\n// ColumnType column type implements ColumnType interface\n"},
+			{"migrator/column_type.go", "\t\"reflect\"\n)", "\t\"reflect\"\n\t\"regexp\"\n)"}}},
+	)
+}
